@@ -19,10 +19,9 @@ macro_rules! sim_println {
     ($($arg:tt)*) => { $crate::shim::child::print_line(format_args!($($arg)*)) };
 }
 
-/// `eprintln!` for code compiled into a harness: diagnostics are formatted
-/// (so that their arguments are evaluated) and dropped.
+/// `eprintln!` for code compiled into a harness: see `shim::child::eprint_line`.
 #[macro_export]
 macro_rules! sim_eprintln {
-    () => {};
-    ($($arg:tt)*) => { { let _ = format!($($arg)*); } };
+    () => { $crate::shim::child::eprint_line(format_args!("")) };
+    ($($arg:tt)*) => { $crate::shim::child::eprint_line(format_args!($($arg)*)) };
 }
